@@ -58,7 +58,7 @@ def main() -> int:
         "setup_cmd": "(/venv/bin/python -c 'import hypothesis' 2>/dev/null || /venv/bin/pip install -q --no-index --find-links /opt/veriftools/wheels hypothesis) && (PYTHONPATH=/verif/.deps /venv/bin/python -c 'import atheris' 2>/dev/null || /venv/bin/pip install -q --no-index --find-links /opt/veriftools/wheels --target /verif/.deps atheris) && chmod +x /verif/check /verif/vf/fakes/slurm/s* 2>/dev/null; true",
         "hooks": {
             "guard": "STREAMFLOW_VERIF",
-            "enable": "checks export STREAMFLOW_VERIF=1 (./check does); no repository hook exists so far: all instrumentation wraps instances from the harness",
+            "enable": "checks export STREAMFLOW_VERIF=1 (./check does); no repository hook exists: all instrumentation wraps instances from the harness (fake connectors are registered in connector_classes at run time)",
             "baseline_off_cmd": "cd /repo && env -u STREAMFLOW_VERIF /venv/bin/python -m pytest -ra -q -p no:cacheprovider --timeout=900 --continue-on-collection-errors",
             "source_commits": [],
             "add_only": True,
